@@ -24,10 +24,10 @@ pub fn run(plan: Plan, tier: &str, seed: u64, case: impl Fn(u64, usize) -> CaseR
     let salt = crate::report::fnv(plan.prop);
     let results = run_cases(n, plan.par.min(workers()), move |i| {
         let s = mix(seed ^ salt, i as u64);
-        (s, case(s, i))
+        (s, i, case(s, i))
     });
     let prop = plan.prop;
-    for (s, r) in results {
+    for (s, idx, r) in results {
         rep.eval();
         if let Some(why) = &r.inconclusive {
             rep.inconclusive(format!("case seed {}: {}", s, why));
@@ -48,7 +48,7 @@ pub fn run(plan: Plan, tier: &str, seed: u64, case: impl Fn(u64, usize) -> CaseR
         }
         for f in r.findings {
             if f.props.contains(&prop) {
-                rep.violation(format!("{}/{}", prop, f.signature), json!({"engine": "E5", "case_seed": s, "finding": f.detail, "refutes": f.props}));
+                rep.violation(format!("{}/{}", prop, f.signature), json!({"engine": "E5", "case_seed": s, "case_index": idx, "finding": f.detail, "refutes": f.props}));
             }
         }
     }
